@@ -17,6 +17,7 @@ import (
 type ExecOpts struct {
 	PermuteRange   bool   // map range / sync.Map.Range order is a symbolic permutation
 	PermutePerCall bool   // a fresh permutation on every range (default: one permutation per map state)
+	PermuteCoarse  bool   // large maps (> 4 entries): a few rotations and the reversal instead of all n! orders
 	Sched          string // "" (no goroutines expected), "join", "interleave"
 	MaxSwitches    int    // interleave: bound on preemptive context switches
 	MaxSteps       int    // unwinding: SSA instructions per path
@@ -598,6 +599,26 @@ func (x *Exec) rangeOrder(ents []*MapEnt) []*MapEnt {
 				return append([]*MapEnt{}, c...)
 			}
 		}
+	}
+	if x.opts.PermuteCoarse && len(out) > 4 {
+		n := len(out)
+		offs := []int{0, 1, n / 2, n - 1}
+		alts := make([]string, 2*len(offs))
+		for k := range alts {
+			alts[k] = "true"
+		}
+		k := x.choose(alts, "perm")
+		off := offs[k%len(offs)]
+		rot := append(append([]*MapEnt{}, out[off:]...), out[:off]...)
+		if k >= len(offs) {
+			for i, j := 0, len(rot)-1; i < j; i, j = i+1, j-1 {
+				rot[i], rot[j] = rot[j], rot[i]
+			}
+		}
+		if !x.opts.PermutePerCall {
+			x.permCache = append(x.permCache, append([]*MapEnt{}, rot...))
+		}
+		return rot
 	}
 	// Lehmer-code style: pick each position by forking
 	for i := 0; i < len(out)-1; i++ {
